@@ -19,7 +19,9 @@ from .. import monitors
 LEVEL = "exploration"
 WORKERS = 8
 RULE = ("pool of ~45 constructs sharing sub-constructs and the global singletons (incl. compiled instances and constructs with Rebuild lambdas); "
-        "operations parse/build/sizeof/compile on valid and invalid inputs; histories of seeded random operations, sequential and split over "
+        "operations parse/build/sizeof/compile on valid and invalid inputs (incl. shared user tables, shared caller-owned values, rotations sharing a byte shift, "
+        "relative seeks in regions, data-driven seek targets, Slicing/Indexing); the whole pool once in three fresh processes differing only in call order; the "
+        "repository's own test-suite under the mutation guard; histories of seeded random operations, sequential and split over "
         "4/8/16 threads (thorough: LINE-level yield injection); structural fingerprints (vars() of every reachable construct incl. user-supplied tables) taken "
         "before the first use and compared at the end; entry points x offsets 0..5 x bytes/bytearray/memoryview/file. non-trivial = an "
         "operation that overlapped in time with another thread's operation on the same or a sub-construct-sharing construct, or a repetition "
